@@ -269,10 +269,15 @@ type query struct {
 	e                expr
 	text             string
 	start, end, step int64 // ms; instant: start == end, step == 0
+	lb               int64 // look-back delta in ms (the request parameter lookback-delta); lookbackMs = server default
 }
 
 func (q *query) opTail() string {
-	return fmt.Sprintf("%d %d %d %s", q.start, q.end, q.step, strings.Join(q.e.tokens(), " "))
+	lb := "D" // the server's default look-back (the model takes it from the regenerated facts)
+	if q.lb != lookbackMs {
+		lb = strconv.FormatInt(q.lb, 10)
+	}
+	return fmt.Sprintf("%d %d %d %s %s", q.start, q.end, q.step, lb, strings.Join(q.e.tokens(), " "))
 }
 
 func (q *query) steps() []int64 {
